@@ -206,19 +206,21 @@ fn gen_ops(rng: &mut Rng, directed: Option<usize>) -> Vec<Op> {
     match directed {
         Some(0) => return vec![Op::Create, Op::Lookup(TokRef::Inv(1), 2), Op::Consume(TokRef::Inv(1), 2), Op::Lookup(TokRef::Inv(1), 3), Op::Consume(TokRef::Inv(1), 3), Op::Lookup(TokRef::Peer(2), 2), Op::Lookup(TokRef::Peer(3), 3)],
         Some(1) => return vec![Op::Accept(Some((7, 1, Some(2)))), Op::Consume(TokRef::Inv(7), 2), Op::Consume(TokRef::Inv(7), 2), Op::Lookup(TokRef::Inv(7), 4)],
+        // the same invitation bytes accepted twice, then presented twice
+        Some(3) => return vec![Op::Accept(Some((7, 1, Some(2)))), Op::Accept(Some((7, 1, Some(2)))), Op::Consume(TokRef::Inv(7), 2), Op::Lookup(TokRef::Inv(7), 2), Op::Consume(TokRef::Inv(7), 2), Op::Lookup(TokRef::Inv(7), 2), Op::Consume(TokRef::Inv(7), 2)],
         Some(2) => return vec![Op::Accept(Some((8, 2, Some(2)))), Op::Accept(None), Op::Lookup(TokRef::Inv(8), 2), Op::Consume(TokRef::Inv(9), 3), Op::Create, Op::Consume(TokRef::Inv(1), 2), Op::Lookup(TokRef::Peer(2), 3), Op::Lookup(TokRef::Peer(2), 2), Op::Lookup(TokRef::Peer(1), 1), Op::Lookup(TokRef::Own, 1), Op::Lookup(TokRef::Own, 2)],
         _ => {}
     }
     let n = 2 + rng.below(7) as usize;
     let mut ops = vec![];
     let mut created = 0u64;
-    let reuse = rng.chance(1, 4);     // most scenarios consume an invitation at most once
+    let reuse = rng.chance(1, 3);     // most scenarios consume an invitation at most once
     let mut used: Vec<u64> = vec![];
     for _ in 0..n {
         let pick_inv = |rng: &mut Rng, created: u64| -> u64 { match rng.below(8) { 0 => 6 + rng.below(4), _ => if created == 0 { 1 } else { 1 + rng.below(created) } } };
         ops.push(match rng.below(10) {
             0..=2 => { created += 1; Op::Create }
-            3 => Op::Accept(if rng.chance(1, 6) { None } else { Some((6 + rng.below(4), if rng.chance(3, 4) { 1 } else { 2 }, Some(2 + rng.below(3)))) }),
+            3 => Op::Accept(if rng.chance(1, 6) { None } else { Some((6 + rng.below(3), if rng.chance(3, 4) { 1 } else { 2 }, Some(2 + rng.below(3)))) }),
             4..=5 => Op::Lookup(match rng.below(5) { 0 | 1 => TokRef::Inv(pick_inv(rng, created)), 2 => TokRef::Own, _ => TokRef::Peer(1 + rng.below(4)) }, 1 + rng.below(4)),
             _ => {
                 let mut inv = pick_inv(rng, created);
@@ -249,7 +251,7 @@ async fn run_ops(ids: &BTreeMap<u64, Ident>, inst: &mut Instance, ops: &[Op]) ->
                 let bytes = inst.pm.create_invite(None).await;
                 match bytes { Ok(b) => { let inv: Invite = bincode::deserialize(&b).unwrap(); inv_uid.insert(created, inv.invite_id); obs.push(1); obs.push(created as i64); }
                               Err(_) => { obs.push(0); obs.push(created as i64); } }
-                terms.push(format!("OCreate {}", gn(created)));
+                terms.push("OCreate".to_string());
             }
             Op::Accept(None) => {
                 let r = inst.pm.accept_invite(&[1, 2, 3, 4, 5]).await;
@@ -311,7 +313,7 @@ async fn main() {
     // ---------------- invitations: directed (known finding first), then generated
     let n_inv = scale(40, 400);
     for n in 0..n_inv {
-        let ops = gen_ops(&mut rng, if n < 3 { Some(n) } else { None });
+        let ops = gen_ops(&mut rng, if n < 4 { Some(n) } else { None });
         let mut inst = instance(&ids[&1], &format!("pm_{}_{}", seed(), n)).await;
         let (obs, terms) = run_ops(&ids, &mut inst, &ops).await;
         let dir = inst.dir.clone();
@@ -322,7 +324,7 @@ async fn main() {
         for (i, op) in ops.iter().enumerate() { if let Op::Consume(TokRef::Inv(v), _) = op { if obs[2 * i + 1] == 1 { *succ.entry(*v).or_insert(0) += 1; } } }
         let twice = succ.values().any(|c| *c > 1);
         *stats.entry(format!("invites.{}", if twice { "CONSUMED-TWICE" } else if succ.is_empty() { "nothing-consumed" } else { "consumed-once" })).or_insert(0) += 1;
-        cases.push(Case { kind: if n == 0 { "K1-owned-invite-twice".to_string() } else if n < 3 { "invites-directed".to_string() } else { "invites".to_string() },
+        cases.push(Case { kind: if n == 0 { "K1-owned-invite-twice".to_string() } else if n == 1 { "K1-received-invite-twice".to_string() } else if n == 3 { "K3-invite-registered-twice".to_string() } else if n < 4 { "invites-directed".to_string() } else { "invites".to_string() },
                           coq: format!("CInvites 1%N {{| s_bytes := 1%N; s_pub := 1%N |}} 1%N {}", glist(&terms)), obs,
                           meta: json!({"ops": ops.len(), "consumed_twice": twice}) });
     }
